@@ -159,6 +159,17 @@ class RetractionState(CommonMixin):
         else:
             amount = self.extrusionAmount * direction
             eAxis = position.E_AXIS
+
+            if (not eAxis.absoluteMode):
+                # Relative extrusion: the E word is the amount to move, no need to set a position
+                returnCommands.append(
+                    "G1 F{f} E{e}".format(
+                        e=-amount / eAxis.unitMultiplier,
+                        f=self.feedRate / eAxis.unitMultiplier
+                    )
+                )
+                return returnCommands
+
             eAxis.current += amount
 
             returnCommands.append(
